@@ -1140,4 +1140,431 @@ theorem emitCB_sound (c : Circuit) (hwf : c.WF) (h : c.emitCB = true) : c.EmitC 
       exact ⟨h', rest, hw, isEmissionB_sound c j h' this.1, fun n hn => laterOkB_sound c j n (this.2 n hn)⟩
     · cases this
 
+/-! ## 8. construction order of the deterministic solvers -/
+
+theorem adj_right_mem_tail {α : Type} {l : List α} {a b : α} (h : Adj l a b) : b ∈ l.tail := by
+  unfold Adj pairs at h
+  exact (List.of_mem_zip h).2
+
+theorem inp_no_pred (c : Circuit) (r : Reg) (a : V) : ¬ c.E a (V.inp r) := by
+  intro h
+  obtain ⟨r', _, hadj⟩ := (E_iff c _ _).mp h
+  have := adj_right_mem_tail hadj
+  simp [Circuit.aug] at this
+
+theorem reach_to_inp (c : Circuit) (r : Reg) (x : V) (h : ReflTransGen c.E x (V.inp r)) : x = V.inp r := by
+  rcases ReflTransGen.cases_tail h with h | ⟨y, _, hy⟩
+  · exact h.symm
+  · exact absurd hy (inp_no_pred c r y)
+
+theorem src_frontEdge (c : Circuit) (r : Reg) : c.src (frontEdge r) = V.inp r := src_of_pos_zero c _ rfl
+
+/-- inserting a node directly after the input nodes of its registers never creates a cycle -/
+theorem acyclic_frontInsert (c : Circuit) (op : Op) (rs : List Reg) (hwf : c.WF) (hac : c.Acyclic) (hnd : rs.Nodup) :
+    (c.insertAt op (rs.map frontEdge)).Acyclic := by
+  refine acyclic_insertAt c op _ hwf hac (by simpa [Function.comp_def, frontEdge] using hnd) ?_
+  intro e1 he1 e2 _ hreach
+  obtain ⟨r1, _, rfl⟩ := List.mem_map.mp he1
+  rw [src_frontEdge] at hreach
+  have := reach_to_inp c r1 _ hreach
+  rcases dst_cases c e2 with h | ⟨n, _, h⟩ <;> rw [h] at this <;> cases this
+
+/-- the state of a photon wire during the construction -/
+def Circuit.photonOk (c : Circuit) (emitted : List Nat) (j : Nat) : Prop :=
+  (j ∈ emitted → ∃ h rest, c.wire ⟨.p, j⟩ = h :: rest ∧ c.isEmission j h ∧ ∀ n, n ∈ rest → c.laterOk j n) ∧
+  (j ∉ emitted → ∀ n, n ∈ c.wire ⟨.p, j⟩ → c.laterOk j n)
+
+structure BInv (s : BuildSt) : Prop where
+  wf : s.c.WF
+  ac : s.c.Acyclic
+  noPP : ∀ n op, s.c.node n = some op → ∀ r1 r2, op.q = [r1, r2] → ¬ (r1.ty = .p ∧ r2.ty = .p)
+  photon : ∀ j, j < s.c.np → s.c.photonOk s.emitted j
+
+/-- a photon wire that the edit does not touch (same wire, same operations on it) keeps its state -/
+theorem photonOk_congr {c c' : Circuit} {emitted : List Nat} {j : Nat} (hw : c'.wire ⟨.p, j⟩ = c.wire ⟨.p, j⟩)
+    (hn : ∀ n, n ∈ c.wire ⟨.p, j⟩ → c'.node n = c.node n) (h : c.photonOk emitted j) : c'.photonOk emitted j := by
+  constructor
+  · intro hj
+    obtain ⟨h0, rest, hw0, hemi, hlater⟩ := h.1 hj
+    refine ⟨h0, rest, by rw [hw, hw0], isEmission_congr (hn h0 (by rw [hw0]; exact List.mem_cons_self)) hemi, ?_⟩
+    intro n hnr
+    exact laterOk_congr (hn n (by rw [hw0]; exact List.mem_cons_of_mem _ hnr)) (hlater n hnr)
+  · intro hj n hnw
+    rw [hw] at hnw
+    exact laterOk_congr (hn n hnw) (h.2 hj n hnw)
+
+theorem ins_zero (w : List Nat) (k : Nat) : ins w 0 k = k :: w := by simp [ins]
+
+/-- the generic front insertion: `op` on the registers `rs` (no photon that has been emitted), shape conditions per photon -/
+theorem BInv_frontInsert (s : BuildSt) (op : Op) (rs : List Reg) (emitted' : List Nat) (h : BInv s) (hnd : rs.Nodup)
+    (hq : op.q = rs)
+    (hv : ∀ r, r ∈ rs → s.c.validReg r = true ∧ r.ty ≠ .c)
+    (hpp : ∀ r1 r2, op.q = [r1, r2] → ¬ (r1.ty = .p ∧ r2.ty = .p))
+    (hfree : ∀ j, (⟨.p, j⟩ : Reg) ∈ rs → j ∉ s.emitted)
+    (hem : ∀ j, j ∈ emitted' ↔ (j ∈ s.emitted ∨ ((⟨.p, j⟩ : Reg) ∈ rs ∧ ∃ i, op = ⟨.cnot, [⟨.e, i⟩, ⟨.p, j⟩], [], true⟩)))
+    (hshape : ∀ j, (⟨.p, j⟩ : Reg) ∈ rs →
+      (∃ i, op = ⟨.cnot, [⟨.e, i⟩, ⟨.p, j⟩], [], true⟩) ∨
+      ((op.kind.isGate1 = true ∧ op.q = [⟨.p, j⟩]) ∨ (op.kind.isClassicalControlled = true ∧ ∃ i, op.q = [⟨.e, i⟩, ⟨.p, j⟩]))) :
+    BInv ⟨s.c.insertAt op (rs.map frontEdge), emitted'⟩ := by
+  obtain ⟨hwf, hac, hnoPP, hphoton⟩ := h
+  have hregs : (rs.map frontEdge).map (·.r) = rs := by simp [Function.comp_def, frontEdge]
+  have hnd' : ((rs.map frontEdge).map (·.r)).Nodup := by rw [hregs]; exact hnd
+  have hnode : ∀ r n, n ∈ s.c.wire r → (s.c.insertAt op (rs.map frontEdge)).node n = s.c.node n := fun r n hn => by
+    have := hwf.wire_le hn
+    rw [insertAt_node, if_neg (by omega)]
+  have hnodek : (s.c.insertAt op (rs.map frontEdge)).node (s.c.nid + 1) = some op := by rw [insertAt_node, if_pos rfl]
+  refine ⟨?_, acyclic_frontInsert s.c op rs hwf hac hnd, ?_, ?_⟩
+  · refine WF_insertAt s.c op _ hwf hnd' ?_ ?_ ?_ ?_
+    · intro e he
+      obtain ⟨r, hr, rfl⟩ := List.mem_map.mp he
+      exact (hv r hr).1
+    · intro r _; rw [hregs, hq]
+    · intro i hi
+      rw [hregs] at hi
+      exact absurd rfl (hv _ hi).2
+    · intro r hr; rw [hq] at hr; exact hv r hr
+  · intro n op' hn r1 r2 hq'
+    rw [insertAt_node] at hn
+    by_cases hnk : n = s.c.nid + 1
+    · rw [if_pos hnk] at hn; cases hn; exact hpp r1 r2 hq'
+    · rw [if_neg hnk] at hn; exact hnoPP n op' hn r1 r2 hq'
+  · intro j hj
+    have hj' : j < s.c.np := by simpa [insertAt_np] using hj
+    have hold := hphoton j hj'
+    by_cases hr : (⟨.p, j⟩ : Reg) ∈ rs
+    · have hfr := hfree j hr
+      have hw : (s.c.insertAt op (rs.map frontEdge)).wire ⟨.p, j⟩ = (s.c.nid + 1) :: s.c.wire ⟨.p, j⟩ := by
+        have := insertAt_wire_of_mem s.c op _ hnd' (frontEdge ⟨.p, j⟩) (List.mem_map.mpr ⟨_, hr, rfl⟩)
+        simpa [frontEdge, ins_zero] using this
+      have hlater : ∀ n, n ∈ s.c.wire ⟨.p, j⟩ → (s.c.insertAt op (rs.map frontEdge)).laterOk j n := fun n hn =>
+        laterOk_congr (hnode _ n hn) (hold.2 hfr n hn)
+      constructor
+      · intro hje
+        rcases (hem j).mp hje with h | ⟨_, i, hop⟩
+        · exact absurd h hfr
+        · exact ⟨s.c.nid + 1, s.c.wire ⟨.p, j⟩, hw, ⟨i, by rw [hnodek, hop]⟩, hlater⟩
+      · intro hje n hn
+        rw [hw] at hn
+        rcases List.mem_cons.mp hn with rfl | hn
+        · rcases hshape j hr with ⟨i, hop⟩ | hsh
+          · exact absurd ((hem j).mpr (Or.inr ⟨hr, i, hop⟩)) hje
+          · exact ⟨op, hnodek, hsh⟩
+        · exact hlater n hn
+    · have hw := insertAt_wire_of_not_mem s.c op (rs.map frontEdge) ⟨.p, j⟩ (by rw [hregs]; exact hr)
+      have hiff : j ∈ emitted' ↔ j ∈ s.emitted := by
+        rw [hem j]
+        exact ⟨fun h => h.elim id (fun h => absurd h.1 hr), Or.inl⟩
+      have := photonOk_congr (c := s.c) (emitted := s.emitted) hw (fun n hn => hnode _ n hn) hold
+      exact ⟨fun h => this.1 (hiff.mp h), fun h => this.2 (fun h' => h (hiff.mpr h'))⟩
+
+theorem BInv_setNode (s : BuildSt) (n : Nat) (old : Op) (gs : List G1) (r : Reg) (h : BInv s)
+    (hold : s.c.node n = some old) (hk : old.kind.isWrapper = true) (hq : old.q = [r]) (hcr : old.cr = []) :
+    BInv { s with c := s.c.setNode n (some ⟨.wrapper gs, [r], [], false⟩) } := by
+  obtain ⟨hwf, hac, hnoPP, hphoton⟩ := h
+  have hnode : ∀ m, (s.c.setNode n (some ⟨.wrapper gs, [r], [], false⟩)).node m =
+      if m = n then some ⟨.wrapper gs, [r], [], false⟩ else s.c.node m := fun _ => rfl
+  refine ⟨WF_setNode s.c n old _ hwf hold hq hcr, acyclic_setNode s.c n _ hac, ?_, ?_⟩
+  · intro m op hm r1 r2 hq'
+    rw [hnode] at hm
+    by_cases hmn : m = n
+    · rw [if_pos hmn] at hm; cases hm; cases hq'
+    · rw [if_neg hmn] at hm; exact hnoPP m op hm r1 r2 hq'
+  · intro j hj
+    have hold' := hphoton j hj
+    have hl : ∀ m, s.c.laterOk j m → (s.c.setNode n (some ⟨.wrapper gs, [r], [], false⟩)).laterOk j m := by
+      intro m hm
+      by_cases hmn : m = n
+      · subst hmn
+        obtain ⟨op, hop, hsh⟩ := hm
+        rw [hold] at hop
+        cases hop
+        refine ⟨_, by rw [hnode, if_pos rfl], ?_⟩
+        rcases hsh with ⟨_, hq1⟩ | ⟨hcc, _⟩
+        · left; exact ⟨rfl, by rw [← hq, hq1]⟩
+        · cases hkind : old.kind <;> simp [hkind, Kind.isWrapper, Kind.isClassicalControlled] at hk hcc
+      · exact laterOk_congr (by rw [hnode, if_neg hmn]) hm
+    constructor
+    · intro hje
+      obtain ⟨h0, rest, hw0, hemi, hlater⟩ := hold'.1 hje
+      have hne : h0 ≠ n := by
+        rintro rfl
+        obtain ⟨i, hi⟩ := hemi
+        rw [hold] at hi
+        cases hi
+        cases hk
+      exact ⟨h0, rest, hw0, isEmission_congr (by rw [hnode, if_neg hne]) hemi, fun m hm => hl m (hlater m hm)⟩
+    · intro hje m hm
+      exact hl m (hold'.2 hje m hm)
+
+theorem BInv_removeWrapper (s : BuildSt) (n : Nat) (old : Op) (h : BInv s) (hold : s.c.node n = some old)
+    (hk : old.kind.isWrapper = true) : BInv { s with c := s.c.removeOp n } := by
+  obtain ⟨hwf, hac, hnoPP, hphoton⟩ := h
+  refine ⟨WF_removeOp s.c n hwf, acyclic_removeOp s.c n hac, ?_, ?_⟩
+  · intro m op hm r1 r2 hq
+    rw [removeOp_node] at hm
+    by_cases hmn : m = n
+    · rw [if_pos hmn] at hm; cases hm
+    · rw [if_neg hmn] at hm; exact hnoPP m op hm r1 r2 hq
+  · intro j hj
+    have hold' := hphoton j hj
+    constructor
+    · intro hje
+      obtain ⟨h0, rest, hw0, hemi, hlater⟩ := hold'.1 hje
+      have hne : h0 ≠ n := by
+        rintro rfl
+        obtain ⟨i, hi⟩ := hemi
+        rw [hold] at hi
+        cases hi
+        cases hk
+      refine ⟨h0, rest.filter (fun m => m ≠ n), by simp [Circuit.removeOp, hw0, hne],
+        isEmission_congr (by rw [removeOp_node, if_neg hne]) hemi, ?_⟩
+      intro m hm
+      have hm' := List.mem_filter.mp hm
+      have hmn : m ≠ n := by simpa using hm'.2
+      exact laterOk_congr (by rw [removeOp_node, if_neg hmn]) (hlater m hm'.1)
+    · intro hje m hm
+      obtain ⟨hm1, hm2⟩ := (mem_removeOp_wire s.c n m _).mp hm
+      exact laterOk_congr (by rw [removeOp_node, if_neg hm2]) (hold'.2 hje m hm1)
+
+theorem BInv_appendGate (s : BuildSt) (p : Nat) (g : G1) (h : BInv s) (hp : p < s.c.np) (hpe : p ∈ s.emitted) :
+    BInv { s with c := s.c.addCore ⟨.base g, [⟨.p, p⟩], [], false⟩ } := by
+  obtain ⟨hwf, hac, hnoPP, hphoton⟩ := h
+  have hnd : (Op.addRegs ⟨.base g, [⟨.p, p⟩], [], false⟩).Nodup := by simp [Op.addRegs]
+  have hqv : ∀ r, r ∈ (⟨.base g, [⟨.p, p⟩], [], false⟩ : Op).q → s.c.validReg r = true ∧ r.ty ≠ .c := by
+    intro r hr
+    simp only [List.mem_singleton] at hr
+    subst hr
+    exact ⟨validReg_p s.c p hp, by simp⟩
+  have hnode : ∀ r n, n ∈ s.c.wire r → (s.c.addCore ⟨.base g, [⟨.p, p⟩], [], false⟩).node n = s.c.node n := fun r n hn => by
+    have := hwf.wire_le hn
+    rw [addCore_eq, insertAt_node, if_neg (by omega)]
+  have hnodek : (s.c.addCore ⟨.base g, [⟨.p, p⟩], [], false⟩).node (s.c.nid + 1) = some ⟨.base g, [⟨.p, p⟩], [], false⟩ := by
+    rw [addCore_eq, insertAt_node, if_pos rfl]
+  refine ⟨WF_addCore s.c _ hwf hnd hqv (fun i hi => by simp at hi), acyclic_addCore s.c _ hwf hac hnd, ?_, ?_⟩
+  · intro m op hm r1 r2 hq
+    rw [addCore_eq, insertAt_node] at hm
+    by_cases hmk : m = s.c.nid + 1
+    · rw [if_pos hmk] at hm; cases hm; cases hq
+    · rw [if_neg hmk] at hm; exact hnoPP m op hm r1 r2 hq
+  · intro j hj
+    have hj' : j < s.c.np := by simpa [addCore_np] using hj
+    have hold := hphoton j hj'
+    have hw := addCore_wire s.c ⟨.base g, [⟨.p, p⟩], [], false⟩ hnd ⟨.p, j⟩
+    by_cases hjp : j = p
+    · subst hjp
+      rw [if_pos (by simp [Op.addRegs])] at hw
+      constructor
+      · intro _
+        obtain ⟨h0, rest, hw0, hemi, hlater⟩ := hold.1 hpe
+        refine ⟨h0, rest ++ [s.c.nid + 1], by rw [hw, hw0]; rfl,
+          isEmission_congr (hnode _ h0 (by rw [hw0]; exact List.mem_cons_self)) hemi, ?_⟩
+        intro m hm
+        rcases List.mem_append.mp hm with hm | hm
+        · exact laterOk_congr (hnode _ m (by rw [hw0]; exact List.mem_cons_of_mem _ hm)) (hlater m hm)
+        · simp only [List.mem_singleton] at hm
+          subst hm
+          exact ⟨_, hnodek, Or.inl ⟨rfl, rfl⟩⟩
+      · intro hne; exact absurd hpe hne
+    · rw [if_neg (by simp [Op.addRegs, hjp])] at hw
+      exact photonOk_congr hw (fun n hn => hnode _ n hn) hold
+
+theorem BuildSt.step_inv (s s' : BuildSt) (op : BuildOp) (h : BInv s) (hs : s.step op = some s') :
+    BInv s' ∧ s'.c.np = s.c.np ∧ s'.c.ne = s.c.ne := by
+  cases op with
+  | frontGate r gs =>
+    simp only [BuildSt.step] at hs
+    split at hs
+    · rename_i hc
+      cases hs
+      obtain ⟨hv, hty, hfree⟩ := hc
+      simp only [decide_eq_true_eq] at hfree
+      refine ⟨?_, insertAt_np _ _ _, insertAt_ne _ _ _⟩
+      have := BInv_frontInsert s ⟨.wrapper gs, [r], [], false⟩ [r] s.emitted h (by simp) rfl
+        (fun r' hr' => by simp only [List.mem_singleton] at hr'; subst hr'; exact ⟨hv, hty⟩)
+        (fun r1 r2 hq => by cases hq)
+        (fun j hj => by simp only [List.mem_singleton] at hj; subst hj; exact hfree rfl)
+        (fun j => ⟨Or.inl, fun h => h.elim id (fun h => by obtain ⟨_, i, hi⟩ := h; cases hi)⟩)
+        (fun j hj => by
+          simp only [List.mem_singleton] at hj
+          subst hj
+          exact Or.inr (Or.inl ⟨rfl, rfl⟩))
+      simpa using this
+    · cases hs
+  | replaceFront r gs =>
+    simp only [BuildSt.step] at hs
+    split at hs
+    · split at hs
+      · rename_i n rest hw
+        split at hs
+        · rename_i gs0 r' fx hnode
+          split at hs
+          · rename_i hrr
+            cases hs
+            subst hrr
+            exact ⟨BInv_setNode s n _ gs r' h hnode rfl rfl rfl, rfl, rfl⟩
+          · cases hs
+        · cases hs
+      · cases hs
+    · cases hs
+  | removeFront r =>
+    simp only [BuildSt.step] at hs
+    split at hs
+    · split at hs
+      · rename_i n rest hw
+        split at hs
+        · rename_i gs0 q0 cr0 fx hnode
+          cases hs
+          exact ⟨BInv_removeWrapper s n _ h hnode rfl, rfl, rfl⟩
+        · cases hs
+      · cases hs
+    · cases hs
+  | emitterCnot ctl tgt =>
+    simp only [BuildSt.step] at hs
+    split at hs
+    · rename_i hc
+      cases hs
+      obtain ⟨h1, h2, h3⟩ := hc
+      refine ⟨?_, insertAt_np _ _ _, insertAt_ne _ _ _⟩
+      have := BInv_frontInsert s ⟨.cnot, [⟨.e, ctl⟩, ⟨.e, tgt⟩], [], false⟩ [⟨.e, ctl⟩, ⟨.e, tgt⟩] s.emitted h
+        (by simp [h3]) rfl
+        (fun r' hr' => by
+          simp only [List.mem_cons, List.not_mem_nil, or_false] at hr'
+          rcases hr' with rfl | rfl
+          · exact ⟨validReg_e s.c ctl h1, by simp⟩
+          · exact ⟨validReg_e s.c tgt h2, by simp⟩)
+        (fun r1 r2 hq => by
+          simp only [List.cons.injEq, and_true] at hq
+          rintro ⟨hp, _⟩; rw [← hq.1] at hp; cases hp)
+        (fun j hj => by simp at hj)
+        (fun j => ⟨Or.inl, fun h => h.elim id (fun h => by simp at h)⟩)
+        (fun j hj => by simp at hj)
+      simpa using this
+    · cases hs
+  | emission e p =>
+    simp only [BuildSt.step] at hs
+    split at hs
+    · rename_i hc
+      cases hs
+      obtain ⟨h1, h2, h3⟩ := hc
+      refine ⟨?_, insertAt_np _ _ _, insertAt_ne _ _ _⟩
+      have := BInv_frontInsert s ⟨.cnot, [⟨.e, e⟩, ⟨.p, p⟩], [], true⟩ [⟨.e, e⟩, ⟨.p, p⟩] (p :: s.emitted) h
+        (by simp) rfl
+        (fun r' hr' => by
+          simp only [List.mem_cons, List.not_mem_nil, or_false] at hr'
+          rcases hr' with rfl | rfl
+          · exact ⟨validReg_e s.c e h1, by simp⟩
+          · exact ⟨validReg_p s.c p h2, by simp⟩)
+        (fun r1 r2 hq => by
+          simp only [List.cons.injEq, and_true] at hq
+          rintro ⟨hp, _⟩; rw [← hq.1] at hp; cases hp)
+        (fun j hj => by
+          simp only [List.mem_cons, Reg.mk.injEq, List.not_mem_nil, or_false] at hj
+          rcases hj with ⟨h, _⟩ | ⟨_, rfl⟩
+          · cases h
+          · exact h3)
+        (fun j => by
+          constructor
+          · intro hj
+            rcases List.mem_cons.mp hj with rfl | hj
+            · exact Or.inr ⟨by simp, e, rfl⟩
+            · exact Or.inl hj
+          · rintro (hj | ⟨_, i, hi⟩)
+            · exact List.mem_cons_of_mem _ hj
+            · injection hi with _ hq _ _
+              injection hq with _ hq2
+              injection hq2 with hq3 _
+              injection hq3 with _ hpj
+              rw [hpj]
+              exact List.mem_cons_self)
+        (fun j hj => by
+          simp only [List.mem_cons, Reg.mk.injEq, List.not_mem_nil, or_false] at hj
+          rcases hj with ⟨h, _⟩ | ⟨_, rfl⟩
+          · cases h
+          · exact Or.inl ⟨e, rfl⟩)
+      simpa using this
+    · cases hs
+  | mcr e p =>
+    simp only [BuildSt.step] at hs
+    split at hs
+    · rename_i hc
+      cases hs
+      obtain ⟨h1, h2, h3, _⟩ := hc
+      refine ⟨?_, insertAt_np _ _ _, insertAt_ne _ _ _⟩
+      have := BInv_frontInsert s ⟨.mcr, [⟨.e, e⟩, ⟨.p, p⟩], [0], true⟩ [⟨.e, e⟩, ⟨.p, p⟩] s.emitted h
+        (by simp) rfl
+        (fun r' hr' => by
+          simp only [List.mem_cons, List.not_mem_nil, or_false] at hr'
+          rcases hr' with rfl | rfl
+          · exact ⟨validReg_e s.c e h1, by simp⟩
+          · exact ⟨validReg_p s.c p h2, by simp⟩)
+        (fun r1 r2 hq => by
+          simp only [List.cons.injEq, and_true] at hq
+          rintro ⟨hp, _⟩; rw [← hq.1] at hp; cases hp)
+        (fun j hj => by
+          simp only [List.mem_cons, Reg.mk.injEq, List.not_mem_nil, or_false] at hj
+          rcases hj with ⟨h, _⟩ | ⟨_, rfl⟩
+          · cases h
+          · exact h3)
+        (fun j => ⟨Or.inl, fun h => h.elim id (fun h => by obtain ⟨_, i, hi⟩ := h; cases hi)⟩)
+        (fun j hj => by
+          simp only [List.mem_cons, Reg.mk.injEq, List.not_mem_nil, or_false] at hj
+          rcases hj with ⟨h, _⟩ | ⟨_, rfl⟩
+          · cases h
+          · exact Or.inr (Or.inr ⟨rfl, e, rfl⟩))
+      simpa using this
+    · cases hs
+  | appendGate p g =>
+    simp only [BuildSt.step] at hs
+    split at hs
+    · rename_i hc
+      cases hs
+      exact ⟨BInv_appendGate s p g h hc.1 hc.2, addCore_np _ _, addCore_ne _ _⟩
+    · cases hs
+
+theorem BuildSt.run_inv (s s' : BuildSt) (ops : List BuildOp) (h : BInv s) (hs : s.run ops = some s') :
+    BInv s' ∧ s'.c.np = s.c.np ∧ s'.c.ne = s.c.ne := by
+  induction ops generalizing s with
+  | nil => simp only [BuildSt.run, Option.some.injEq] at hs; subst hs; exact ⟨h, rfl, rfl⟩
+  | cons op ops ih =>
+    simp only [BuildSt.run] at hs
+    cases h1 : s.step op with
+    | none => rw [h1] at hs; cases hs
+    | some s1 =>
+      rw [h1] at hs
+      obtain ⟨hi, hnp, hne⟩ := BuildSt.step_inv s s1 op h h1
+      obtain ⟨hi', hnp', hne'⟩ := ih s1 hi hs
+      exact ⟨hi', by rw [hnp', hnp], by rw [hne', hne]⟩
+
+theorem acyclic_empty (ne np nc : Nat) : (Circuit.empty ne np nc).Acyclic := by
+  intro v hv
+  rcases TransGen.head'_iff.mp hv with ⟨y, hvy, hyv⟩
+  obtain ⟨r, rfl, rfl⟩ := empty_E _ _ _ _ _ hvy
+  have := reach_from_out _ _ _ hyv
+  cases this
+
+/-- **every circuit a deterministic solver can build in its construction order satisfies the invariant** -/
+theorem solverCircuit_emitInv (ne np : Nat) (ops : List BuildOp) (c : Circuit) (h : solverCircuit ne np ops = some c) :
+    c.EmitInv := by
+  unfold solverCircuit at h
+  split at h
+  · rename_i s hrun
+    split at h
+    · rename_i hall
+      cases h
+      have h0 : BInv ⟨Circuit.empty ne np 1, []⟩ := by
+        refine ⟨WF_empty ne np 1, acyclic_empty ne np 1, fun n op hn => by simp [Circuit.empty] at hn, ?_⟩
+        intro j _
+        unfold Circuit.photonOk
+        constructor
+        · intro hj; cases hj
+        · intro _ n hn; cases hn
+      obtain ⟨hinv, hnp, _⟩ := BuildSt.run_inv _ s ops h0 hrun
+      refine ⟨hinv.wf, hinv.ac, hinv.noPP, ?_⟩
+      intro j hj
+      have hj' : j < np := by rw [hnp] at hj; exact hj
+      simp only [List.all_eq_true, List.mem_range, decide_eq_true_eq] at hall
+      exact (hinv.photon j hj).1 (hall j hj')
+    · cases h
+  · cases h
+
 end Graphiq.Wire
